@@ -97,7 +97,9 @@ pub fn c05_c06(d: &Digest, s: usize, out: &mut Vec<Violation>) {
             }
         }
         // lossless
-        if sd.clean_stop.is_some() && observable(sd) && !sd.model.hole_reducers {
+        // lossless, eventually: also when a stop() gave up after its timeout and the stalled
+        // reducer drained the queue afterwards
+        if (sd.clean_stop.is_some() || d.drained(s)) && observable(sd) && !sd.model.hole_reducers {
             for &ci in &sd.dispatches {
                 let c = &d.calls[ci];
                 if let (OpK::Dispatch { act, .. }, true) = (&c.op, c.ok()) {
